@@ -121,7 +121,9 @@ impl Renderer {
                     };
                     let num_lines = output.matches('\n').count();
                     write!(self.stdout, "{}{}", self.reset_sequence, output)?;
-                    self.reset_sequence = "\x1b[2K\x1b[1A".repeat(num_lines);
+                    // erase every line of this frame, the first one included: after moving up
+                    // `num_lines` times the cursor is on the frame's first line
+                    self.reset_sequence = "\x1b[2K\x1b[1A".repeat(num_lines) + "\x1b[2K";
                     self.last_print = Some(Instant::now());
                 }
 
